@@ -42,11 +42,12 @@ S12N = ('Stubs S1 (slider look-ups replaced by the ray walk that C15 proves equa
 claim('C01', 'Bounded model checking over FULL = every position accepted by the real Board::try_from (64 symbolic cells, side, rights, e.p. mark, '
       'counters) x every move tuple, case-split by side and move-kind group (the union of the cases is exhaustive): the prefiltered legality decision '
       'shared by legal::gen_*, has_legal_moves and the SAN candidates, Move::validate / is_legal_unchecked, and apply-then-test all equal legal_ref '
-      '(mailbox statement of the rules). The list-returning legal generators are decided with the legality filter abstracted (S6: for every predicate '
-      'A the list is exactly the pseudo-legal moves of the class accepted by A, each once) and composed with the filter-exactness result; the '
-      'semilegal generators against semilegal_ref with an observer sink and a symbolic target move.',
-      TB + S12N + GENB + 'Quick tier: the special-move and king cases of the prefiltered decision plus the pawn-only generator bound; '
-      'thorough: every case of every harness.', 'DESIGN.md C01')
+      '(mailbox statement of the rules). The semilegal generators are decided against semilegal_ref with an observer sink and a symbolic target move '
+      '(each pseudo-legal move of the class exactly once, nothing else, at most 256 moves) within GEN bounds.',
+      TB + S12N + GENB + 'The list-returning legal::gen_X = semilegal::gen_X followed by retain(prefiltered decision) is a three-line composition that is '
+      'read, not solved: the harness that abstracted the filter (S6) failed unwinding assertions on the unchanged tree for reasons not yet understood '
+      'and is therefore not registered. Quick tier: the special-move and king cases of the prefiltered decision plus the pawn-only generator bound.',
+      'DESIGN.md C01')
 claim('C02', 'One step of every safe entry point from an arbitrary valid position (FULL x every well-formed tuple, by case): Board::make_move and '
       'Make::make_raw accept exactly the legal moves; an accepted move yields a position that satisfies C11\'s validity conditions with nothing to '
       'normalise and rebuilt derived sets (thorough: re-validated with the real try_from), mover not in check; a refused move leaves every field '
@@ -71,10 +72,12 @@ claim('C06', 'All 532 480 tuples: is_well_formed / Move::new = geometric possibi
       'count(target) = [semilegal_ref and class], total <= 256, for the five generators.',
       TB + S12N + GENB, 'DESIGN.md C06')
 claim('C07', 'FULL, S3 (has_legal_moves = symbolic h): calc_outcome and calc_draw_simple equal the forced > mandatory > claimable classification with '
-      'insufficient material counted from the squares, for all clock values. The probe itself: has_legal_moves under an abstract legality predicate '
-      '(S6) answers false only if every non-castling pseudo-legal move was offered and rejected and true only by stopping on an accepted move; the '
-      'filter is C01\'s prefiltered decision; castling can be skipped by the rule-level lemma (legal castling => legal king step to the transit square).',
-      TB + S12N + GENB, 'DESIGN.md C07')
+      'insufficient material counted from the squares, for all clock values and both answers of the probe; companion harness for a lone king to move, '
+      'where the probe answer is decided by the rules (realizable counterexamples); rule-level lemma: legal castling => legal king step to the transit '
+      'square (why the probe may skip castling).',
+      TB + S12N + 'NOT decided: "has_legal_moves is true exactly when a legal move exists" as a statement about the early-exit probe itself - the S6 wiring '
+      'harness is unsound on the unchanged tree (unresolved unwinding failures) and the direct harness with the real filter needs more than 28 GB '
+      'even for king + one pawn; the probe is exercised natively in every replay only.', 'DESIGN.md C07')
 claim('C09', 'Value level (san::Data / san::Move): into_move is sound for every value of every variant (a returned move is legal and agrees with '
       'piece, destination, origin hints, promotion; no other legal move agrees, else Ambiguity with two distinct agreeing legal moves; a value that '
       'denotes a legal move is not refused), from_move writes piece letter, destination, capture flag, promotion, castling side, check mark '
